@@ -76,8 +76,9 @@ def blank_patterns(n):
     return list(itertools.product([False, True], repeat=n))
 
 
-def make_records(n, blanks):
-    return [[] if blanks[i] else [f"r{i}", str(i * 7 % 10), "x"] for i in range(n)]
+def make_records(n, blanks, ditto=None):
+    """`ditto`: positions whose last cell is a lone double quote (plain data when the quote character is the apostrophe)"""
+    return [[] if blanks[i] else [f"r{i}", str(i * 7 % 10), '"' if ditto and ditto[i] else "x"] for i in range(n)]
 
 
 MATCH_PARTS = ['yes()', 'push("n", line_number())']
@@ -87,11 +88,13 @@ def case_scan(case):
     """case: {scan: text, k: K or None, n, blanks, mp}"""
     import real_run
 
-    recs = make_records(case["n"], case["blanks"])
-    path = real_run.write_file("scan.csv", recs)
+    # "positions of CSV records": under the reader's configured dialect; `quote` = "'" makes the double quote plain data
+    quote = case.get("quote", '"')
+    recs = make_records(case["n"], case["blanks"], case.get("ditto"))
+    path = real_run.write_file("scan.csv", recs, quotechar=quote)
     scan = case["scan"]
     mp = MATCH_PARTS[case.get("mp", 0)]
-    out, p = real_run.run_single(f"${path}[{scan}][{mp}]")
+    out, p = real_run.run_single(f"${path}[{scan}][{mp}]", quotechar=quote)
     res = {"case": case, "disagree": [], "oracle": [], "nontrivial": False}
     # ---- model: scanner state, includes, is_last (unit-level) ----
     m = driver.ask({"op": "scan", "scan": scan, "n": case["n"]})
